@@ -1,8 +1,12 @@
-"""Statement-by-statement translation (pyexpr.py style) of the three methods that decide C17's server-side answers
+"""Statement-by-statement translation (pyexpr.py style) of the methods that decide C17's server-side behaviour
 
     IOSoftware.add_connection          (simulator/system/software.py)
+    IOSoftware.terminate_connection    (under send_disconnect=False, the way `receive` calls it)
     DatabaseService._process_connect   (simulator/system/services/database/database_service.py)
     DatabaseService._process_sql
+    DatabaseService.receive            (the dispatcher on the payload's keys; round 3)
+    DatabaseService.backup_database    (the service's logic around the transfer; the transfer is the model's ftpSendFile; round 3)
+    DatabaseService.restore_backup     (ditto, ftpRequestFile: the ORDER of leftover removal / request / arrival check / replacement; round 3)
 
 into Lean functions over the model's `Server` record (Gen/DatabaseTr.lean).  Props/C17.lean proves the translated
 functions EQUAL to the hand-written model (`C17_tr_*`), so a change of a guard, an operator, a status code, a branch
@@ -450,11 +454,7 @@ def _translate_terminate(io: ast.ClassDef) -> str:
     args = [a.arg for a in fn.args.args]
     if args != ["self", "connection_id", "send_disconnect"]:
         raise Unsupported(f"terminate_connection signature {args}")
-    t = TrRecv()
-
-    class T(TrRecv):
-        pass
-    tr = T()
+    tr = TrRecv()
     env = {"connection_id": ("connection_id", "optid")}
 
     def strip_dead(stmts):
